@@ -129,7 +129,7 @@ pub fn run(ctx: &mut Ctx, replay: Option<&Value>) {
         run_case(ctx, case);
         return;
     }
-    let n = ctx.cases.unwrap_or(if ctx.tier_thorough { 25_000 } else { 800 });
+    let n = ctx.count(2_500, 25_000);
     for i in 0..n {
         let mut rng = Rng::fork(ctx.seed, i);
         let case = if i % 4 == 3 { gen_ref_case(&mut rng, ctx.tier_thorough, 0) } else { gen_own_case(&mut rng, ctx.tier_thorough, i, false, 0) };
